@@ -210,6 +210,23 @@ func valuesFor(t string) []celVal {
 		return []celVal{bv(true), bv(false)}
 	case "[]string":
 		return []celVal{lsv(), lsv([]string{}...), {GoLit: "[]string{}", Cel: []string{}, Show: "[]"}, lsv("a"), lsv("a", "b"), lsv("admin", "x"), lsv("", "a"), lsv("prefix1", "prefix2"), lsv("prefix1", "other"), lsv("target", "target"), lsv("unique", "b", "c"), lsv("é", "日本"), lsv("", "a", "", "b"), lsv("x", "prefix1", "", "prefix2")}
+	case "[][]int":
+		mk := func(rows ...[]int64) celVal {
+			var q, sh []string
+			for _, r := range rows {
+				var e []string
+				for _, x := range r {
+					e = append(e, strconv.FormatInt(x, 10))
+				}
+				q = append(q, "{"+strings.Join(e, ", ")+"}")
+				sh = append(sh, "["+strings.Join(e, ",")+"]")
+			}
+			if rows == nil {
+				rows = [][]int64{}
+			}
+			return celVal{GoLit: "[][]int{" + strings.Join(q, ", ") + "}", Cel: rows, Show: "[" + strings.Join(sh, ",") + "]"}
+		}
+		return []celVal{mk([]int64{1, 2}, []int64{3, 4}, []int64{5, 6}), mk(), mk([]int64{}), mk([]int64{1}, []int64{-1, 7}), mk([]int64{1, 2, 3}, []int64{4, 5, 6}, []int64{0, 7, 8}, []int64{9})}
 	case "[]int":
 		return []celVal{{GoLit: "[]int(nil)", Cel: []int64{}, Show: "nil"}, liv(), liv(1), liv(1, 2, 3), liv(0, -1), liv(5, 5), liv(10, 20, 30, 40), liv(-1, 5, -3, 7), liv(200, -1, 50)}
 	case "map[string]int":
@@ -572,7 +589,10 @@ func celCorpus() []celCase {
 		{"[]int", "value.all(x, x > 0)"}, {"[]int", "1 in value"}, {"[]int", "value.exists_one(x, x == 5)"},
 		{"string", "value + 'x' == 'ax'"}, {"string", "value < 'b'"}, {"string", "startsWith(value, 'a')"},
 		{"int", "double(value) > 17.5"}, {"int", "string(value) == '42'"}, {"string", "double(value) > 1.5"},
-		{"int", "value == 1 || value == 2 && this.B"}, {"float64", "value <= 16777217.0"}, {"[]int", "value.filter(x, x > 0).all(y, y < 100)"}, {"[]int", "value.filter(x, x > 0).exists(y, y == 7)"},
+		{"int", "value == 1 || value == 2 && this.B"}, {"float64", "value <= 16777217.0"},
+		{"string", "value.matches('^(?:ab|cd)+$')"}, {"string", "value.matches('^ab?.d$')"}, {"string", "!value.contains('..')"}, {"string", "value != '${HOME}'"},
+		{"string", "value.contains('.trim(')"}, {"string", "value == '[1:3]'"}, {"string", "value.startsWith('range(')"},
+		{"[][]int", "value.all(row, row.all(c, c > 0))"}, {"[][]int", "value.exists(row, row.exists(c, c == 7))"}, {"[][]int", "value.all(row, size(row) > 0 && row.all(c, c >= 0))"}, {"[]int", "value.filter(x, x > 0).all(y, y < 100)"}, {"[]int", "value.filter(x, x > 0).exists(y, y == 7)"},
 		{"[]string", "value.filter(s, s != '').exists(u, u == 'a')"}, {"[]string", "value.filter(s, s.startsWith('prefix')).all(u, size(u) > 6)"}, {"[]int", "size(value.filter(x, x > 0).map(y, y * 2)) == 2"}, {"int", "18 <= value"}, {"int", "0 < value"}, {"int", "100 > value"}, {"float64", "0.5 < value"}, {"string", "'abc' <= value"}, {"uint8", "5u >= value"}, {"float64", "value == 0.1"}, {"float64", "value < 0.123456789"}, {"int", "has(this.X)"}, {"string", "value == \"it's\""}, {"string", "value == 'say \"hi\"'"},
 		{"string", "value.size() > 2"}, {"[]string", "value.size() > 1"}, {"[]string", "value[0] == 'a'"}, {"time.Duration", "value < duration('30m')"},
 		{"string", "value.trim() == 'a'"}, {"int", "math.abs(value) > 1"}, {"int", "value ?: 1"},
@@ -649,12 +669,15 @@ func celSource(pkg string, c celCase) string {
 
 func celDriverFile(pkg string, c celCase, vals []celVal) string {
 	var sb strings.Builder
-	sb.WriteString("package " + pkg + "\n\nimport (\n\t\"context\"\n\t\"errors\"\n\t\"fmt\"\n\t\"io\"\n\t\"math\"\n\t\"time\"\n)\n\nvar _ = math.Pi\nvar _ time.Duration\n\n")
+	sb.WriteString("package " + pkg + "\n\nimport (\n\t\"context\"\n\t\"errors\"\n\t\"fmt\"\n\t\"io\"\n\t\"math\"\n\t\"strings\"\n\t\"time\"\n\n\t\"scen/rt\"\n)\n\nvar _ = math.Pi\nvar _ time.Duration\n\n")
 	sb.WriteString("func run1(v *T) (res string) {\n\tdefer func() {\n\t\tif r := recover(); r != nil {\n\t\t\tres = \"panic\"\n\t\t}\n\t}()\n\tbefore := fmt.Sprintf(\"%#v\", *v)\n\terr := v.Validate()\n\tif after := fmt.Sprintf(\"%#v\", *v); after != before {\n\t\treturn \"mutated\"\n\t}\n\tif err == nil {\n\t\treturn \"ok\"\n\t}\n\tif errors.Is(err, ErrTFCELValidation) {\n\t\treturn \"cel\"\n\t}\n\treturn \"other\"\n}\n\n")
-	sb.WriteString("func RunCtx(w io.Writer) {\n\tctx, cancel := context.WithCancel(context.Background())\n\tcancel()\n\tres := \"other\"\n")
-	fmt.Fprintf(&sb, "\tfunc() {\n\t\tdefer func() {\n\t\t\tif r := recover(); r != nil {\n\t\t\t\tres = \"panic\"\n\t\t\t}\n\t\t}()\n\t\terr := (&T{F: %s, %s}).ValidateContext(ctx)\n", vals[0].GoLit, otherGrid[1].lits())
-	sb.WriteString("\t\tswitch {\n\t\tcase err == nil:\n\t\t\tres = \"nil\"\n\t\tcase errors.Is(err, context.Canceled):\n\t\t\tres = \"canceled\"\n\t\tcase errors.Is(err, ErrTFCELValidation):\n\t\t\tres = \"cel\"\n\t\t}\n\t}()\n")
-	fmt.Fprintf(&sb, "\tfmt.Fprintf(w, \"%s\\tctx\\t%%s\\n\", res)\n}\n\n", c.ID)
+	// ValidateContext under contexts that turn done at their k-th Err() call (k = 0: already cancelled). Whenever a call
+	// returned non-nil (Calls > K) the context was OBSERVED done and the result must be exactly that error.
+	sb.WriteString("func RunCtx(w io.Writer) {\n\tvar parts []string\n\tfor k := 0; k <= 6; k++ {\n\t\tc := &rt.FlipCtx{Context: context.Background(), K: k, Kind: context.Canceled}\n\t\tres := \"other\"\n")
+	fmt.Fprintf(&sb, "\t\tfunc() {\n\t\t\tdefer func() {\n\t\t\t\tif r := recover(); r != nil {\n\t\t\t\t\tres = \"panic\"\n\t\t\t\t}\n\t\t\t}()\n\t\t\terr := (&T{F: %s, %s}).ValidateContext(c)\n", vals[0].GoLit, otherGrid[1].lits())
+	sb.WriteString("\t\t\tswitch {\n\t\t\tcase err == nil:\n\t\t\t\tres = \"nil\"\n\t\t\tcase errors.Is(err, context.Canceled):\n\t\t\t\tres = \"canceled\"\n\t\t\tcase errors.Is(err, ErrTFCELValidation):\n\t\t\t\tres = \"cel\"\n\t\t\t}\n\t\t}()\n")
+	sb.WriteString("\t\tparts = append(parts, fmt.Sprintf(\"%d:%s:%d\", k, res, c.Calls))\n\t}\n")
+	fmt.Fprintf(&sb, "\tfmt.Fprintf(w, \"%s\\tctx\\t%%s\\n\", strings.Join(parts, \",\"))\n}\n\n", c.ID)
 	// stress entry for the race run: bindings that are distinct per goroutine and per iteration
 	fmt.Fprintf(&sb, "func RunStress(g int) {\n\tfor i := 0; i < 150; i++ {\n\t\tv := &T{F: %s, %s}\n\t\tv.S = fmt.Sprintf(\"^a%%d_%%d\", g, i)\n\t\tv.X = g*1000 + i\n\t\t_ = run1(v)\n\t}\n}\n\n", vals[0].GoLit, otherGrid[1].lits())
 	sb.WriteString("func Run(w io.Writer) {\n")
